@@ -48,6 +48,10 @@ def plan(tier, seed):
             items.append(dict(kind=kind, arch=arch, q=q))
     for kind, arch in (("positive", [2, 2]), ("complex", [2, 2]), ("mixed", [2, 2, 2])):
         items.append(dict(kind=kind, arch=arch, scope="stateful"))
+    # strongly polarised / nearly pure states (visible biases around -10: eigenvalues and probabilities down to 1e-12):
+    # fidelity only - KL / NLL of such states leave the library's documented logit clamp
+    for kind, arch in (("mixed", [2, 2, 2]), ("mixed", [3, 1, 1]), ("mixed", [3, 2, 2]), ("complex", [3, 2])):
+        items.append(dict(kind=kind, arch=arch, scope="polarised"))
     return items
 
 
@@ -67,12 +71,14 @@ def bases_lists(kind, n):
     return out
 
 
-def check_state(acc, kind, arch, params, st=None, history=None):
+def check_state(acc, kind, arch, params, st=None, history=None, only_fidelity=False):
     L = lib()
     ts = training_statistics()
     base = dict(kind=kind, arch=arch, params=params)
     if history is not None:
         base["history"] = history
+    if only_fidelity:
+        base["scope"] = "polarised"
     st = build_state(kind, arch, params) if st is None else st
     n = arch[0]
     D = 2 ** n
@@ -136,6 +142,8 @@ def check_state(acc, kind, arch, params, st=None, history=None):
                     bad("fidelity:not-1-against-own-state" if tn == "own" else "fidelity:changed-by-global-phase", what, f, 1.0)
                 if not (isinstance(f2, float) and abs(f2 - f) <= 1e-12):
                     bad("fidelity:space-omitted-differs", what, f2, f)
+                if only_fidelity:
+                    continue
                 # documented deprecated keyword names and ignored extra keywords (MetricEvaluator passes
                 # one keyword set to every metric)
                 import warnings as _w
@@ -235,9 +243,31 @@ def run_stateful(acc, kind, arch):
         check_state(acc, kind, arch, seq[i + 1], st=st, history=hist)
 
 
+def polarised_params(kind, arch, q):
+    from ..common import pattern, net_sizes, aux_bias_slice
+    sizes = net_sizes(kind, arch)
+    ps = [pattern(m, q, r) for r, m in enumerate(sizes)]
+    nv, nh = arch[0], arch[1]
+    off = nv * nh + (nv * arch[2] if kind == "mixed" else 0)
+    for j in range(nv):
+        ps[0][off + j] = [-10.0, -11.0, -9.5, -10.5][j % 4] * (1 if q % 2 == 0 else -1)
+    if kind == "mixed":
+        sl = aux_bias_slice(arch)
+        for t in range(sl.start, sl.stop):
+            ps[1][t] = 0.0
+    return ps
+
+
 def run_item(item):
     acc = Acc()
     kind, arch = item["kind"], item["arch"]
+    if item.get("scope") == "polarised":
+        for q in range(2):
+            params = polarised_params(kind, arch, q)
+            check_state(acc, kind, arch, params, only_fidelity=True)
+            acc.sample(dict(kind=kind, arch=arch, params=params, scope="polarised", metrics=["fidelity"]), cap=1)
+        acc.states = acc.transitions = acc.traces = acc.evaluations
+        return acc
     if item.get("scope") == "stateful":
         run_stateful(acc, kind, arch)
         acc.sample(dict(kind=kind, arch=arch, scope="stateful"), cap=1)
@@ -257,5 +287,5 @@ def replay(case):
     if case.get("history"):
         run_stateful(acc, case["kind"], case["arch"])
         return acc
-    check_state(acc, case["kind"], case["arch"], case["params"])
+    check_state(acc, case["kind"], case["arch"], case["params"], only_fidelity=case.get("scope") == "polarised")
     return acc
